@@ -226,7 +226,13 @@ pub fn run(ctx: &Ctx) -> i32 {
                 7..=8 => rng.range(11, 40),
                 _ => rng.range(41, 90),
             };
-            let tree = gen_tree(rng, &table, size, &gcfg);
+            let tree = if rng.chance(1, 8) {
+                st.bump("trees_long_single_level_chain");
+                let n = rng.range(15, 90);
+                gen_chain_tree(rng, &table, n, &gcfg)
+            } else {
+                gen_tree(rng, &table, size, &gcfg)
+            };
             let rcfg = if rng.chance(1, 2) { RenderCfg::plain() } else { RenderCfg::random(rng) };
             let text = render(&tree, &table, rng, &rcfg);
             st.bump("cases");
